@@ -171,6 +171,10 @@ func (ex *Exec) handOff(g *gor, done bool) {
 		if ex.job != nil && ex.job.Meta["deadlock"] == "violation" {
 			dead = pathEnd{endViolation, "hang: every goroutine is blocked:" + sb}
 		}
+		if ex.job != nil && ex.job.Meta["deadlock"] == "ignore" {
+			// the harness states that hangs are outside its claim: the path ends here
+			dead = pathEnd{endInfeasible, "hang (outside the harness's claim): every goroutine is blocked:" + sb}
+		}
 		if g.id == 0 {
 			panic(dead)
 		}
